@@ -192,7 +192,7 @@ inductive Reply where
   | defn (name canon : String) (value : Option Number)
   | conversion (raw : Number) (bottom : Number) (names : NameMap) (const : Numeric)
       (base : Nat) (digits : Digits)
-  | convNone (n : Number) (base : Nat) (digits : Digits)
+  | convNone (n : Number) (base : Nat) (digits : Digits) (baseGiven : Bool)
   | unitList (top : Number) (parts : List ListEntry)
 deriving Repr
 
@@ -280,11 +280,11 @@ def evalQuery (ctx : Ctx) (q : Query) : Outcome Reply :=
   match q with
   | .convert top .none (some base) digits => do
     let n ← evalExpr ctx top
-    pure (.convNone n base digits)
+    pure (.convNone n base digits true)
   | .convert top .none none .default => do let n ← evalExpr ctx top; finishExpr ctx n
   | .convert top .none none digits => do
     let n ← evalExpr ctx top
-    pure (.convNone n 10 digits)
+    pure (.convNone n 10 digits false)
   | .convert top (.expr bottom) base digits => do
     let t ← evalExpr ctx top
     let b ← evalExpr ctx bottom
